@@ -128,6 +128,12 @@ def run_client(chk, prop, tier, seed):
 
 def main(prop, tier, seed, replay_file):
     if replay_file:
+        with open(replay_file) as _f:
+            _rp = json.load(_f)
+        if str(_rp.get("family", "")).startswith("consumer"):
+            from . import check_consumer
+            return check_consumer.main(prop, tier, seed, replay_file)
+    if replay_file:
         with open(replay_file) as f:
             rp = json.load(f)
         dot = "dot=True" in rp["family"]
@@ -148,6 +154,17 @@ def main(prop, tier, seed, replay_file):
             "cluster: 3 brokers, 2 bootstrap hosts, topics a{0,1} b{0}, one group; version discovery disabled here",
         ]
         run_client(chk, prop, tier, seed)
+        if prop == "C08":
+            # "... consuming resumes within the retry budget after faults cease": the real Consumer over this client and
+            # the simulated cluster, with leader moves, broker restarts and error answers (Consumer.tla decides what the
+            # consumer must do with each failed fetch: retry with the documented backoff, within its attempt limit)
+            from . import check_consumer
+
+            def resumes(clause, step):
+                if clause in ("C14.backoff", "C14.timers", "C13.start_result", "C02.fetch_position") and step["e"]["a"] == "FetchErr":
+                    return "C08.consumer_resumes"
+                return None
+            check_consumer.run_full(chk, "C08", tier, seed, alias=resumes)
         if prop == "C20":
             # closing the client closes every broker client: what close() does to one connection's requests
             # (BrokerConn.tla, incl. callbacks that cancel siblings re-entrantly) is part of C20 too
